@@ -460,6 +460,11 @@ def rule_r10(ctx):
                 a0 = f.expand(c.node["args"][0]) if c.node["args"] else None
                 if a0 is not None and any(m.get("k") == "mem" and m.get("rec") == rec and m["f"] == "btrace" for m in walk(a0)):
                     writes.append((c, "copy into %s" % show(a0)))
+            if writes and not takes and f.static and not prog.fn_refs(f.name):
+                # a helper that files the route for its caller: every caller is a function that takes the request off a pipe
+                cs = [g for g, c in prog.callers().get(f.name, []) if g.file == f.file and not g.cfg_failed]
+                takes = bool(cs) and all(any(c.node["args"] and (last_field(g.expand(c.node["args"][0])) or "").endswith(".aio_recv")
+                                             for c in g.calls("nni_aio_get_msg")) for g in cs)
             for t, what in writes:
                 n += 1
                 if takes:
